@@ -11,7 +11,8 @@ LEVEL = "exploration"
 RULE = (
     "offset cases: one per (mode, ROM offset) in disjoint ranges (thorough: every offset of 0..0x3FFFFF x 3 modes), "
     "each judged by the textbook formula, the Bus offset where the Bus maps the address, and the round trip; "
-    "pointer cases: (base, pointer) / (base, 2 bytes) pairs hashed"
+    "pointer cases: (base, pointer) / (base, 2 bytes) pairs hashed; batch cases: forward conversions of many offsets in all modes "
+    "first, back conversions afterwards (the functions must not depend on the call history)"
 )
 ASSUMPTIONS = [
     "textbook: LoROM bank=o//0x8000 (+0x80 for the second variant), low word 0x8000+o%0x8000; HiROM 0xC00000+o",
@@ -31,12 +32,16 @@ def plan(tier: str, seed: int) -> list[dict]:
                 shards.append({"kind": "offsets", "mode": mode, "lo": lo, "hi": lo + step})
         for i in range(16):
             shards.append({"kind": "pointers", "seed": seed * 100 + i, "n": 70_000})
+        for i in range(16):
+            shards.append({"kind": "batch", "seed": seed * 100 + i, "n": 40_000})
     else:
         for mode in MODES:
             for k in range(4):
                 shards.append({"kind": "edges", "mode": mode, "lo": k * (SPACE // 4), "hi": (k + 1) * (SPACE // 4), "seed": seed * 100 + k, "n": 34_000})
         for i in range(4):
             shards.append({"kind": "pointers", "seed": seed * 100 + i, "n": 13_000})
+        for i in range(4):
+            shards.append({"kind": "batch", "seed": seed * 100 + i, "n": 4_000})
     return shards
 
 
@@ -153,6 +158,46 @@ def run_shard(shard: dict) -> Res:
         for o in sorted(seen):
             check_offset(res, cx, shard["mode"], o)
         res.sample({"mode": shard["mode"], "offsets_in": [hex(lo), hex(hi)], "n": len(seen), "example": [hex(lo), hex(cx.cpu.rom_to_snes(lo, cx.rt[shard["mode"]]))]})
+    elif kind == "batch":
+        # the conversions are pure functions of their arguments: many forward conversions first (all modes interleaved,
+        # including LoROM-2 offsets whose address coincides with a HiROM one), then every address is mapped back
+        rng = random.Random(shard["seed"] ^ 0xBA7C)
+        todo = []
+        for _ in range(shard["n"]):
+            h = rng.choice([0x8000, 0x8001, 0xFFFF, 0x18000]) + 0x10000 * rng.randrange(0, 0x3F) if rng.random() < 0.5 else rng.randrange(SPACE)
+            h %= SPACE
+            todo.append(("high", h))
+            a_h = textbook(h, "high")
+            if (a_h & 0xFFFF) >= 0x8000:
+                lo2 = ((a_h >> 16) - 0x80) * 0x8000 + (a_h & 0x7FFF)      # the LoROM-2 offset that yields the same address
+                if lo2 < SPACE:
+                    todo.append(("low2", lo2))
+            todo.append((rng.choice(["low", "low2"]), rng.randrange(0x200000)))
+        rng.shuffle(todo)
+        fwd = []
+        for mode, o in todo:
+            try:
+                fwd.append((mode, o, cx.cpu.rom_to_snes(o, cx.rt[mode])))
+            except Exception as e:  # noqa: BLE001
+                res.violate("rom-to-snes-raises", f"rom_to_snes({o:#x}, {mode}) raised {e!r}", {"kind": "offset", "mode": mode, "o": o})
+        order = list(range(len(fwd)))
+        rng.shuffle(order)
+        for i in order:
+            mode, o, a = fwd[i]
+            if a != textbook(o, mode):
+                continue        # reported by the per-offset check
+            if mode == "low2" and o >= 0x200000:
+                continue        # coincides with HiROM: not claimed
+            res.case(("batch", mode, o))
+            res.count("batch_roundtrips")
+            try:
+                back = cx.cpu.snes_to_rom(a)
+            except Exception as e:  # noqa: BLE001
+                back = type(e).__name__
+            if back != o:
+                res.violate("roundtrip-after-other-conversions", f"snes_to_rom({a:#x}) = {back if not isinstance(back, int) else hex(back)} after other conversions, expected {o:#x} ({mode})",
+                            {"kind": "batch", "mode": mode, "o": o})
+        res.sample({"kind": "batch", "conversions": len(fwd)})
     else:
         rng = random.Random(shard["seed"] ^ 0xC20)
         edges = [0, 1, 0x7FFF, 0x8000, 0x8001, 0xFFFF, 0x10000, 0x17FFF, 0x18000]
@@ -173,6 +218,9 @@ def replay(w: dict) -> Res:
     warnings.simplefilter("ignore")
     res = Res()
     cx = Ctx()
+    if w["kind"] == "batch":
+        res.undecided("batch witnesses depend on the whole conversion history: re-run the shard")
+        return res
     if w["kind"] == "offset":
         check_offset(res, cx, w["mode"], w["o"])
     elif w["kind"] == "pointer":
